@@ -51,13 +51,16 @@ def _is_dot_sym(s):
     return s["k"] == "assign" and s["value"] == "." and not s["provide"] and not s["hidden"]
 
 
-def obs_placement(j, case, with_keep=False, with_pads=False):
+def obs_placement(j, case, with_keep=False, with_pads=False, with_tail=False):
     res = []
     for label, ast, w in _asts(j):
         def pred(s, ctx):
             if s["k"] == "input":
                 return True
-            if s["k"] == "outsec" or s["k"] == "single_entry" or s["k"] == "discard":
+            if s["k"] == "outsec":
+                return True
+            # the allow-list entries and the discard block belong to C18
+            if with_tail and (s["k"] == "single_entry" or s["k"] == "discard"):
                 return True
             if _is_dot_sym(s) and ctx and ctx[-1][0] == "outsec":
                 return True
